@@ -42,6 +42,12 @@ GEN_SPEC = {"items": [
     {"kind": "calls", "file": S, "func": "NewSubscriber", "as": "calls_NewSubscriber"},
     {"kind": "calls", "file": "rpc/resolver/internal/discovbuilder.go", "func": "discovBuilder.Build", "as": "calls_Build"},
     {"kind": "const", "file": "rpc/resolver/internal/resolver.go", "name": "subsetSize"},
+    {"kind": "calls", "file": "lib/discov/publisher.go", "func": "Publisher.KeepAlive", "as": "calls_KeepAlive"},
+    {"kind": "calls", "file": "lib/discov/publisher.go", "func": "Publisher.register", "as": "calls_register"},
+    {"kind": "calls", "file": "lib/discov/publisher.go", "func": "Publisher.keepAliveAsync", "as": "calls_keepAliveAsync"},
+    {"kind": "calls", "file": "lib/discov/publisher.go", "func": "Publisher.revoke", "as": "calls_revoke"},
+    {"kind": "calls", "file": "lib/discov/publisher.go", "func": "Publisher.Stop", "as": "calls_Stop"},
+    {"kind": "calls", "file": R, "func": "cluster.watchStream", "as": "calls_watchStream"},
 ]}
 QUICK_N = 300
 THOROUGH_N = 5000
@@ -75,35 +81,63 @@ VALS = ["a", "b", "c", "d"]
 
 
 # ----------------------------------------------------------------------------- generation
-def _hist(rng, n_events=None, proviso=True):
+def _hist(rng, n_events=None, proviso=True, multi=None):
     prefix = rng.choice(["svc", "svc", "a.rpc", "k"])
+    if multi is None:
+        multi = rng.random() < 0.3
+    prefixes = [prefix]
+    if multi:
+        prefixes = rng.sample(["svc", "a.rpc", "k", "pay.rpc", "m"], rng.randint(2, 4))
+        prefix = prefixes[0]
     nk = rng.randint(2, 7)
     nv = rng.randint(1, 4)
-    keys = ["%s/%d" % (prefix, 7587 + i) for i in range(nk)]
+    keys = ["%s/%d" % (prefixes[i % len(prefixes)], 7587 + i) for i in range(max(nk, len(prefixes)))]
     outside = rng.sample([prefix + "x/1", "other/2", prefix, prefix + "/"[:0] + "0/3"], rng.randint(0, 2))
     val = {k: VALS[rng.randrange(nv)] for k in keys + outside}
     n = n_events if n_events is not None else rng.randint(3, 40)
-    max_subs = rng.randint(1, 3)
-    max_reloads = rng.randint(0, 4)
+    max_subs = rng.randint(len(prefixes), max(3, len(prefixes)))
+    max_reloads = rng.randint(0, 4) if not multi else rng.randint(1, 3)
     p_miss = rng.choice([0.0, 0.2, 0.4, 0.7])
     p_del = rng.choice([0.3, 0.45, 0.6])
+    p_batch = rng.choice([0.0, 0.1, 0.25])
     events = []
     nsubs = nreloads = 0
     present = set()
     sub_at = sorted(rng.sample(range(n), min(max_subs, n)))
     if rng.random() < 0.8:
         sub_at[0] = rng.randint(0, min(2, n - 1))
+    if multi:   # every prefix is subscribed early, so that reloads concern all of them
+        sub_at = list(range(min(len(prefixes), n))) + [x for x in sub_at if x >= len(prefixes)]
     sub_at = sorted(set(sub_at))
     for i in range(n):
         if i in sub_at:
             ls = sorted(set(rng.randrange(0, 6) for _ in range(rng.randint(0, 2))))
-            events.append({"t": "sub", "x": rng.random() < 0.4, "ls": ls})
+            pi = nsubs if nsubs < len(prefixes) else rng.randrange(len(prefixes))
+            events.append({"t": "sub", "x": rng.random() < 0.4, "ls": ls, "p": pi})
             nsubs += 1
             continue
         r = rng.random()
         if nreloads < max_reloads and r < 0.12:
             events.append({"t": "reload"})
             nreloads += 1
+            continue
+        if proviso and rng.random() < p_batch:
+            # several changes in ONE watch response: restarts (delete then put of a key), put then delete, mixed keys
+            items = []
+            for _ in range(rng.randint(2, 5)):
+                k = rng.choice(keys)
+                q = rng.random()
+                if k in present and q < 0.35:      # restart
+                    items += [{"t": "del", "k": k}, {"t": "put", "k": k, "v": val[k]}]
+                elif k in present and q < 0.7:
+                    items.append({"t": "del", "k": k})
+                    present.discard(k)
+                elif k not in present and q < 0.3:  # comes and goes within the response
+                    items += [{"t": "put", "k": k, "v": val[k]}, {"t": "del", "k": k}]
+                else:
+                    items.append({"t": "put", "k": k, "v": val[k]})
+                    present.add(k)
+            events.append({"t": "batch", "items": items})
             continue
         k = rng.choice(keys) if rng.random() < 0.9 or not outside else rng.choice(outside)
         d = rng.random() >= p_miss
@@ -118,7 +152,74 @@ def _hist(rng, n_events=None, proviso=True):
                 v = rng.choice(VALS)
             events.append({"t": "put", "k": k, "v": v, "d": d})
             present.add(k)
-    return {"kind": "hist", "prefix": prefix, "events": events}
+    out = {"kind": "hist", "prefix": prefix, "events": events}
+    if multi:
+        out["prefixes"] = prefixes
+    return out
+
+
+def _pub(rng):
+    ops = ["start"]
+    mode = "active"
+    for _ in range(rng.randint(1, 9)):
+        if mode == "active":
+            o = rng.choice(["lose", "lose", "losex", "lose", "pause", "stop"])
+        elif mode == "paused":
+            o = rng.choice(["resume", "resume", "stop"])
+        else:
+            break
+        ops.append(o)
+        mode = {"pause": "paused", "resume": "active", "stop": "stopped"}.get(o, mode)
+    if mode == "active" and rng.random() < 0.8:
+        ops.append(rng.choice(["stop", "pause"]))
+    return {"kind": "pub", "key": rng.choice(["svc", "a.rpc"]), "value": "10.0.0.%d:8080" % rng.randint(1, 9),
+            "id": rng.choice([0, 0, 7, 12]), "pops": ops}
+
+
+def publisher_family():
+    """(r4-1) register, keep-alive losses in a row, then Stop / Pause: nothing of the publisher may remain."""
+    out = []
+    for idn in (0, 9):
+        for tail in (["stop"], ["pause"], ["pause", "resume", "lose", "stop"], ["pause", "stop"]):
+            for losses in (["lose"], ["lose", "lose", "lose"], ["losex"], ["lose", "losex", "lose"]):
+                out.append({"kind": "pub", "key": "svc", "value": "10.0.0.1:80", "id": idn, "pops": ["start"] + losses + tail})
+    out.append({"kind": "pub", "key": "svc", "value": "10.0.0.1:80", "id": 0, "pops": ["start", "stop"]})
+    return out
+
+
+def multi_prefix_family():
+    """(r4-2) several keys subscribed on one cluster; changes under every prefix during an outage; reload."""
+    out = []
+    for n in (2, 4):
+        pf = ["svc", "a.rpc", "pay.rpc", "m"][:n]
+        ev = [{"t": "sub", "x": False, "ls": [0], "p": i} for i in range(n)]
+        ev += [P("%s/1" % q, "a") for q in pf]
+        ev += [P("%s/2" % q, "b", False) for q in pf] + [D("%s/1" % q, False) for q in pf]
+        ev += [RL]
+        ev += [P("%s/3" % q, "c") for q in pf] + [D("%s/2" % q) for q in pf]
+        ev += [P("%s/4" % q, "a", False) for q in pf] + [RL] + [D("%s/4" % q) for q in pf]
+        out.append({"kind": "hist", "prefix": pf[0], "prefixes": pf, "events": ev})
+    # a second listener on one of the prefixes, joining after the first reload
+    pf = ["svc", "k"]
+    out.append({"kind": "hist", "prefix": "svc", "prefixes": pf, "events": [
+        SUB(p=0), SUB(p=1), P("svc/1", "a", False), P("k/1", "b", False), RL, SUB(p=1), D("svc/1", False), D("k/1", False), RL]})
+    return out
+
+
+def batch_family():
+    """(r4-3) one watch response carrying several events."""
+    B = lambda *items: {"t": "batch", "items": [({"t": "put", "k": k, "v": v} if v else {"t": "del", "k": k}) for k, v in items]}
+    H = lambda ev: {"kind": "hist", "prefix": "svc", "events": ev}
+    out = []
+    for x in (False, True):
+        out += [
+            H([SUB(x), P("svc/1", "a"), B(("svc/1", None), ("svc/1", "a")), SUB(x)]),                       # restart
+            H([SUB(x), B(("svc/1", "a"), ("svc/1", None)), SUB(x)]),                                        # comes and goes
+            H([SUB(x), P("svc/1", "a"), P("svc/2", "b"), B(("svc/1", None), ("svc/3", "a"), ("svc/2", None), ("svc/2", "b")), SUB(x),
+               B(("svc/3", None), ("svc/1", "a"), ("other/9", "c"))]),                                        # mixed keys
+            H([SUB(x), SUB(False), P("svc/1", "a"), B(("svc/1", None), ("svc/1", "a"), ("svc/1", None)), B(("svc/1", "a"))]),
+        ]
+    return out
 
 
 def _cont(rng, proviso):
@@ -150,8 +251,8 @@ def D(k, d=True):
     return {"t": "del", "k": k, "d": d}
 
 
-def SUB(x=False, ls=(0,)):
-    return {"t": "sub", "x": x, "ls": list(ls)}
+def SUB(x=False, ls=(0,), p=0):
+    return {"t": "sub", "x": x, "ls": list(ls), "p": p}
 
 
 RL = {"t": "reload"}
@@ -253,10 +354,12 @@ def resolver_family():
 
 
 def generate(rng, tier, n):
-    cases = list(directed()) + resolver_family() + late_join_family() + duplicate_family()
+    cases = (list(directed()) + resolver_family() + late_join_family() + duplicate_family() +
+             publisher_family() + multi_prefix_family() + batch_family())
     nres = max(6, n // 12)
     for _ in range(nres):
         cases.append(_res(rng))
+        cases.append(_pub(rng))
     while len(cases) < n:
         r = rng.random()
         if r < 0.80:
@@ -271,23 +374,41 @@ def generate(rng, tier, n):
 
 
 def search(rng, problems):
-    out = list(directed()) + resolver_family() + late_join_family() + duplicate_family()
-    out += [_res(rng) for _ in range(20)]
+    out = (list(directed()) + resolver_family() + late_join_family() + duplicate_family() +
+           publisher_family() + multi_prefix_family() + batch_family())
+    out += [_res(rng) for _ in range(20)] + [_pub(rng) for _ in range(20)]
     for _ in range(60):
         out.append(_hist(rng, n_events=rng.randint(4, 10)))
     return out
 
 
 # ----------------------------------------------------------------------------- drivers
-def _hist_cases(cases):
-    return [i for i, c in enumerate(cases) if c["kind"] == "hist"]
+def _projections(case, ho):
+    """a history on a cluster with several subscribed prefixes = one single-prefix history per prefix:
+    the events without the subscriptions of the other prefixes, with what was observed for that prefix"""
+    prefixes = case.get("prefixes") or [case["prefix"]]
+    steps = ho.get("steps") or []
+    out = []
+    for pi, pfx in enumerate(prefixes):
+        evs, sts = [], []
+        for j, ev in enumerate(case["events"]):
+            if ev["t"] == "sub" and ev.get("p", 0) != pi:
+                continue
+            evs.append(ev)
+            if j < len(steps) and pi < len(steps[j].get("per") or []):
+                st = dict(steps[j]["per"][pi])
+                st["stuck"] = steps[j]["stuck"]
+                sts.append(st)
+        sts = sts[:len(evs)] if len(sts) == len(evs) else sts[:min(len(sts), len(evs))]
+        out.append({"prefix": pfx, "events": evs, "steps": sts})
+    return out
 
 
-def _cont_cases_of(case, hobs):
-    """container cases for the subscribers of a history, from the calls observed in stage 1"""
-    steps = hobs.get("steps") or []
+def _cont_cases_of(proj):
+    """container cases for the subscribers of a (projected) history, from the calls observed in stage 1"""
+    steps = proj["steps"]
     subs = []
-    for j, ev in enumerate(case["events"][:len(steps)]):
+    for j, ev in enumerate(proj["events"][:len(steps)]):
         if ev["t"] == "sub":
             subs.append({"excl": bool(ev.get("x")), "start": j, "ls": set(ev.get("ls") or []), "ops": []})
         for i, s in enumerate(subs):
@@ -308,23 +429,35 @@ def drive(cases, tier):
     hist_idx = [i for i, c in enumerate(cases) if c["kind"] == "hist"]
     hobs = []
     if hist_idx:
-        hobs, l1 = vlib.run_driver(GO_PKG, [{"prefix": cases[i]["prefix"], "events": cases[i]["events"]} for i in hist_idx],
-                                   name="C15h_" + tier[0], timeout=DRIVER_TIMEOUT)
+        inp = []
+        for i in hist_idx:
+            c = cases[i]
+            inp.append({"prefixes": c.get("prefixes") or [c["prefix"]], "events": c["events"]})
+        hobs, l1 = vlib.run_driver(GO_PKG, inp, name="C15h_" + tier[0], timeout=DRIVER_TIMEOUT)
         log += l1
         if hobs is None:
             return None, log
     per_case = {}
     cont_in = []
     for i, ho in zip(hist_idx, hobs):
-        subs = [] if "driver_panic" in ho or "error" in ho else _cont_cases_of(cases[i], ho)
-        per_case[i] = (ho, subs)
-        for s in subs:
-            s["slot"] = len(cont_in)
-            cont_in.append({"excl": s["excl"], "ops": s["ops"]})
+        bad = "driver_panic" in ho or "error" in ho
+        projs = [] if bad else _projections(cases[i], ho)
+        for pr in projs:
+            pr["subs"] = _cont_cases_of(pr)
+            for s_ in pr["subs"]:
+                s_["slot"] = len(cont_in)
+                cont_in.append({"excl": s_["excl"], "ops": s_["ops"]})
+        per_case[i] = {"projs": projs, "panic": ho.get("driver_panic") or ho.get("error")}
     for i, c in enumerate(cases):
         if c["kind"] == "cont":
-            per_case[i] = (None, [{"excl": c["excl"], "start": 0, "ops": c["ops"], "slot": len(cont_in)}])
+            per_case[i] = {"projs": [{"prefix": None, "events": [], "steps": [],
+                                      "subs": [{"excl": c["excl"], "start": 0, "ops": c["ops"], "slot": len(cont_in)}]}]}
             cont_in.append({"excl": c["excl"], "ops": c["ops"]})
+    pub_slot = {}
+    for i, c in enumerate(cases):
+        if c["kind"] == "pub":
+            pub_slot[i] = len(cont_in)
+            cont_in.append({"kind": "pub", "key": c["key"], "value": c["value"], "id": c["id"], "pops": c["pops"]})
     res_idx = [i for i, c in enumerate(cases) if c["kind"] == "res"]
     robs = {}
     if res_idx:
@@ -345,17 +478,21 @@ def drive(cases, tier):
         if c["kind"] == "res":
             out.append({"res": robs[i]})
             continue
-        ho, subs = per_case[i]
-        conts = []
-        for s in subs:
-            co = cobs[s["slot"]]
-            conts.append({"excl": s["excl"], "start": s["start"], "ops": s["ops"], "samples": co.get("samples"),
-                          "panic": co.get("driver_panic")})
-        o = {"conts": conts}
-        if ho is not None:
-            o["steps"] = ho.get("steps")
-            if "driver_panic" in ho:
-                o["panic"] = ho["driver_panic"]
+        if c["kind"] == "pub":
+            out.append({"pub": cobs[pub_slot[i]]})
+            continue
+        pc = per_case[i]
+        projs = []
+        for pr in pc["projs"]:
+            conts = []
+            for s_ in pr["subs"]:
+                co = cobs[s_["slot"]]
+                conts.append({"excl": s_["excl"], "start": s_["start"], "ops": s_["ops"], "samples": co.get("samples"),
+                              "panic": co.get("driver_panic")})
+            projs.append({"prefix": pr["prefix"], "events": pr["events"], "steps": pr["steps"], "conts": conts})
+        o = {"proj": projs}
+        if pc.get("panic"):
+            o["panic"] = pc["panic"]
         out.append(o)
     return out, log
 
@@ -384,6 +521,10 @@ def _keys(ids, calls, sign):
     return clist([ids.key(k) for k in out])
 
 
+def _item(ids, it):
+    return "BPut %s %s" % (ids.key(it["k"]), ids.val(it["v"])) if it["t"] == "put" else "BDel %s" % ids.key(it["k"])
+
+
 def _encode_res(case, obs):
     ids = _Ids()
     events = []
@@ -399,42 +540,63 @@ def _encode_res(case, obs):
     fine = bool(r) and r.get("stuck") == "" and r.get("gated") and r.get("streams") == 1
     under = [ids.key(k) for k in sorted(ids.k) if k.startswith(case["prefix"] + "/")]
     q = "mkres %s %s" % (clist([clist([ids.val(v) for v in st]) for st in states]), cbool(fine))
-    return "mkcase %s %s [] [] (Some (%s))" % (clist(under), clist(events), q)
+    return "CHist [mkcase %s %s [] [] (Some (%s))]" % (clist(under), clist(events), q)
 
 
-def encode(case, obs):
-    if case["kind"] == "res":
-        return _encode_res(case, obs)
+POPS = {"start": "OStart", "lose": "OLose false", "losex": "OLose true", "pause": "OPause", "resume": "OResume", "stop": "OStop"}
+
+
+def _encode_pub(case, obs):
+    r = obs.get("pub") or {}
+    rows = []
+    for row in r.get("rows") or []:
+        store = []
+        for k, lease in row["store"]:
+            tail = k[len(case["key"]) + 1:] if k.startswith(case["key"] + "/") else ""
+            n = int(tail) if tail.isdigit() else None
+            if n is None:
+                code = 0
+            elif case["id"] > 0:
+                code = 2 * n
+            else:
+                code = 2 * n + 1
+            store.append(cpair(cnat(code), cnat(lease)))
+        vals = [cnat(1) if v == case["value"] else cnat(2) for v in row["values"]]
+        rows.append("mkrow %s %s %s" % (clist(store), clist(vals), cbool(row["stuck"] == "")))
+    idt = "(Some %s)" % cnat(case["id"]) if case["id"] > 0 else "None"
+    return "CPub (mkpub %s %s %s %s)" % (idt, cnat(1), clist([POPS[o] for o in case["pops"]]), clist(rows))
+
+
+def _encode_proj(prefix, pr):
     ids = _Ids()
     events, steps = [], []
-    if case["kind"] == "hist":
-        prefix = case["prefix"]
-        sts = obs.get("steps") or []
-        nl = 0
-        for j, ev in enumerate(case["events"]):
-            st = sts[j] if j < len(sts) else None
-            calls = st["calls"] if st else []
-            if ev["t"] == "put":
-                events.append("Put %s %s %s" % (ids.key(ev["k"]), ids.val(ev["v"]), cbool(ev["d"])))
-            elif ev["t"] == "del":
-                events.append("Del %s %s" % (ids.key(ev["k"]), cbool(ev["d"])))
-            elif ev["t"] == "reload":
-                first = calls[0] if calls else []
-                events.append("Reload %s %s" % (_keys(ids, first, "+"), _keys(ids, first, "-")))
-            else:
-                new = calls[-1] if calls else []
-                n = len(sts[j - 1]["cvals"]) if (st and j > 0 and nl > 0) else 0
-                events.append("Subscribe %s %s %s" % (_keys(ids, new[:n], "+"), _keys(ids, new[n:], "+"), _keys(ids, new[n:], "-")))
-                nl += 1
-            if st is not None:
-                fine = st["stuck"] == "" and (st["opened"] == 0 or st["watch_pfx"] == prefix + "/")
-                cv = copt(clist([cpair(ids.key(k), ids.val(v)) for k, v in st["cvals"]])) if st["has_cvals"] else "None"
-                steps.append("mkstep %s %s %s %s %s %s %s %s" % (
-                    clist([clist([_call(ids, c) for c in l]) for l in calls]), cv, cnat(st["watchers"]), cnat(st["gets"]),
-                    cnat(st["opened"]), cnat(max(st["get_rev"], 0)), cnat(max(st["watch_rev"], 0)), cbool(fine)))
-        under = None
+    sts = pr.get("steps") or []
+    nl = 0
+    for j, ev in enumerate(pr.get("events") or []):
+        st = sts[j] if j < len(sts) else None
+        calls = st["calls"] if st else []
+        if ev["t"] == "put":
+            events.append("Put %s %s %s" % (ids.key(ev["k"]), ids.val(ev["v"]), cbool(ev["d"])))
+        elif ev["t"] == "del":
+            events.append("Del %s %s" % (ids.key(ev["k"]), cbool(ev["d"])))
+        elif ev["t"] == "batch":
+            events.append("Batch %s" % clist([_item(ids, it) for it in ev["items"]]))
+        elif ev["t"] == "reload":
+            first = calls[0] if calls else []
+            events.append("Reload %s %s" % (_keys(ids, first, "+"), _keys(ids, first, "-")))
+        else:
+            new = calls[-1] if calls else []
+            n = len(sts[j - 1]["cvals"]) if (st and j > 0 and nl > 0) else 0
+            events.append("Subscribe %s %s %s" % (_keys(ids, new[:n], "+"), _keys(ids, new[n:], "+"), _keys(ids, new[n:], "-")))
+            nl += 1
+        if st is not None:
+            fine = st["stuck"] == "" and (st["opened"] == 0 or st["watch_pfx"] == prefix + "/")
+            cv = copt(clist([cpair(ids.key(k), ids.val(v)) for k, v in st["cvals"]])) if st["has_cvals"] else "None"
+            steps.append("mkstep %s %s %s %s %s %s %s %s" % (
+                clist([clist([_call(ids, c) for c in l]) for l in calls]), cv, cnat(st["watchers"]), cnat(st["gets"]),
+                cnat(st["opened"]), cnat(max(st["get_rev"], 0)), cnat(max(st["watch_rev"], 0)), cbool(fine)))
     conts = []
-    for t in obs.get("conts") or []:
+    for t in pr.get("conts") or []:
         ops = []
         for o in t["ops"]:
             if o["op"] == "add":
@@ -454,15 +616,31 @@ def encode(case, obs):
                 clist([cnat(n) for n in p["lst"]]), cbool(p["dirty_after"])))
         conts.append("mkcont %s %s %s %s" % (cbool(t["excl"]), cnat(t["start"]), clist(ops), clist(samples)))
     under = []
-    if case["kind"] == "hist":
-        under = [ids.key(k) for k in sorted(ids.k) if k.startswith(case["prefix"] + "/")]
+    if prefix is not None:
+        under = [ids.key(k) for k in sorted(ids.k) if k.startswith(prefix + "/")]
     return "mkcase %s %s %s %s None" % (clist(under), clist(events), clist(steps), clist(conts))
+
+
+def encode(case, obs):
+    if case["kind"] == "res":
+        return _encode_res(case, obs)
+    if case["kind"] == "pub":
+        return _encode_pub(case, obs)
+    projs = obs.get("proj") or []
+    if case["kind"] == "hist" and not projs:
+        # the driver gave nothing: a history without observations never matches the model
+        prefixes = case.get("prefixes") or [case["prefix"]]
+        projs = [{"prefix": prefixes[0], "events": [e for e in case["events"] if e["t"] != "sub" or e.get("p", 0) == 0],
+                  "steps": [], "conts": []}]
+    return "CHist %s" % clist([_encode_proj(pr.get("prefix"), pr) for pr in projs])
 
 
 # ----------------------------------------------------------------------------- evidence helpers
 def nontrivial(case, obs):
     if case["kind"] == "res":
         return len(case["during"]) > 0
+    if case["kind"] == "pub":
+        return any(o in ("lose", "losex") for o in case["pops"]) and case["pops"][-1] in ("stop", "pause")
     if case["kind"] != "hist":
         return False
     seen_sub = missed = repaired = dele = False
@@ -473,7 +651,7 @@ def nontrivial(case, obs):
         elif ev["t"] == "reload":
             repaired = repaired or (seen_sub and missed)
         elif seen_sub:
-            if not ev["d"]:
+            if not ev.get("d", True):
                 missed = True
             if ev["t"] == "del":
                 dele = True
@@ -484,6 +662,9 @@ def bucket(case, obs):
     if case["kind"] == "res":
         return ["kind:res", "res-during=%d" % len(case["during"]), "res-post=%d" % len(case["post"])] + (
             ["STUCK"] if (obs.get("res") or {}).get("stuck") else [])
+    if case["kind"] == "pub":
+        return ["kind:pub", "pub-id" if case["id"] else "pub-lease-key", "pub-losses=%d" % sum(o.startswith("lose") for o in case["pops"])] + (
+            ["STUCK"] if any(r.get("stuck") for r in ((obs.get("pub") or {}).get("rows") or [])) else [])
     if case["kind"] == "cont":
         return ["kind:cont", "cont-excl" if case["excl"] else "cont-shared", "cont-ops=%d" % (len(case["ops"]) // 10 * 10)]
     ev = case["events"]
@@ -502,7 +683,11 @@ def bucket(case, obs):
             vals.setdefault(e["v"], set()).add(e["k"])
     if any(len(s) > 1 for s in vals.values()):
         out.append("shared-value")
-    if any(st.get("stuck") for st in (obs.get("steps") or [])):
+    if any(e["t"] == "batch" for e in ev):
+        out.append("has-batch")
+    if len(case.get("prefixes") or []) > 1:
+        out.append("prefixes=%d" % len(case["prefixes"]))
+    if any(st.get("stuck") for pr in (obs.get("proj") or []) for st in (pr.get("steps") or [])):
         out.append("STUCK")
     return out
 
